@@ -329,7 +329,7 @@ def wl_boundary(ctx, rng, i):
         judge(ctx, o, ver, tags=("boundary-value",))
         if m.can_carry_granular(t) and pathor.fits_syntax((prop,)):
             o2 = dict(o)
-            o2["granular_markings"] = [{"marking_ref": M.TLP["green"], "selectors": [prop]}]
+            o2["granular_markings"] = [{"marking_ref": M.TLP["green"] if o.get("id") != M.TLP["green"] else M.TLP["red"], "selectors": [prop]}]
             judge(ctx, o2, ver, embedding="plain", tags=("selector-on-boundary-value",))
             if v in (False, 0, "", 0.0):
                 ctx.count("selector_on_falsy_value")
